@@ -370,7 +370,7 @@ def r4_create_file(ctx):
         out.append(holds("C14.R4", "create_file:O_CREAT", t.where(), "O_CREAT forced; O_NOFOLLOW forced by the wrapper (C05.R2b)"))
     else:
         out.append(violated("C14.R4", "create_file:O_CREAT", t.where(), "create_file open without O_CREAT"))
-    ro = [o for o in T.return_origins(b, ("0",))]
+    ro = [o for o in T.return_origins(b, OKP)]
     if ro and all(o.kind == "call" and o.term is t for o in ro):
         out.append(holds("C14.R4", "create_file:returns-the-open", t.where(), "returned File is the descriptor of the creating open"))
     else:
@@ -498,8 +498,8 @@ def r6_resolve_parent(ctx, rule="C14.R6"):
     out = []
     RP = "root::RootRef::<'_>::resolve_parent"
     b = F.body(RP)
-    d = T.return_origins(b, ("0", "0"))
-    n = T.return_origins(b, ("0", "1"))
+    d = T.return_origins(b, (OKP[0], "0"))
+    n = T.return_origins(b, (OKP[0], "1"))
     RES = ("root::RootRef::<'_>::resolve",)
     okd = bool(d) and all(o.kind == "call" and o.term.callee in RES for o in d)
     if okd:
